@@ -54,6 +54,26 @@ type c07BadStruct struct {
 	C chan int
 }
 
+// self-referential types (a builder / iterator for T is asked for while T's own is still being made),
+// valid or with an unsupported member declared after or before the self-reference
+type c07List struct {
+	V    int
+	Next *c07List
+}
+type c07SelfChanAfter struct {
+	Next *c07SelfChanAfter
+	Ch   chan int
+}
+type c07SelfChanBefore struct {
+	Ch   chan int
+	Next *c07SelfChanBefore
+}
+type c07SelfContainers struct {
+	Kids []c07SelfContainers
+	M    map[string]c07SelfContainers
+	F    func()
+}
+
 type c07Unexported struct {
 	a int
 	B int
@@ -131,6 +151,17 @@ var c07Templates = map[string]func() interface{}{
 	"[0]int":        func() interface{} { return [0]int{} },
 	"struct{}":      func() interface{} { return struct{}{} },
 	"*chan":         func() interface{} { c := make(chan int); return &c },
+	// self-referential, valid and with unsupported members
+	"list":                 func() interface{} { return c07List{} },
+	"*list":                func() interface{} { return &c07List{} },
+	"self-chan":            func() interface{} { return c07SelfChanAfter{} },
+	"*self-chan":           func() interface{} { return &c07SelfChanAfter{} },
+	"[]self-chan":          func() interface{} { return []c07SelfChanAfter{} },
+	"map-self-chan":        func() interface{} { return map[string]c07SelfChanAfter{} },
+	"self-chan-before":     func() interface{} { return c07SelfChanBefore{} },
+	"*self-chan-before":    func() interface{} { return &c07SelfChanBefore{} },
+	"self-containers-func": func() interface{} { return c07SelfContainers{} },
+	"[]self-containers":    func() interface{} { return []c07SelfContainers{} },
 }
 
 var c07TemplateNames = sortedKeys(c07Templates)
@@ -154,6 +185,17 @@ var c07Values = map[string]func() interface{}{
 	"map-func":           func() interface{} { return map[string]func(){"a": func() {}} },
 	"[]func":             func() interface{} { return []func(){nil, func() {}} },
 	"[]iface-chan":       func() interface{} { return []interface{}{1, make(chan int), "x"} },
+	"list":               func() interface{} { return c07List{V: 1, Next: &c07List{V: 2}} },
+	"*list":              func() interface{} { return &c07List{V: 1} },
+	"self-chan":          func() interface{} { return c07SelfChanAfter{} },
+	"*self-chan":         func() interface{} { return &c07SelfChanAfter{Next: &c07SelfChanAfter{}} },
+	"nil-*self-chan":     func() interface{} { var p *c07SelfChanAfter; return p },
+	"[]self-chan":        func() interface{} { return []c07SelfChanAfter{} },
+	"map-self-chan":      func() interface{} { return map[string]c07SelfChanAfter{} },
+	"self-chan-before":   func() interface{} { return c07SelfChanBefore{} },
+	"*self-chan-before":  func() interface{} { var p *c07SelfChanBefore; return p },
+	"[]self-containers":  func() interface{} { return []c07SelfContainers{} },
+	"self-containers":    func() interface{} { return c07SelfContainers{} },
 	"map-iface-complex":  func() interface{} { return map[string]interface{}{"a": complex(1, 1)} },
 	"unsafeptr":          func() interface{} { return unsafe.Pointer(nil) },
 	"uintptr":            func() interface{} { return uintptr(7) },
